@@ -208,6 +208,30 @@ def rule_c(ctx):
         rep.ob('C1', 'core.PrefetchDataset.__iter__.%s::catches-exactly-the-selection-around-the-lookup' % c.name, ok, t,
                '' if ok else 'the catcher must wrap only the lookup, with one handler whose type is the configured '
                'selection (True -> FilterException, else as given), returning the drop sentinel')
+    # which lazy_parallel_map call runs under which polarity of self.catch_filter_exception
+    cnames = {c.name for c in catchers}
+    for call in [n for n in A.walk_local(fn) if isinstance(n, ast.Call) and A.dotted(n.func) == 'lazy_parallel_map']:
+        f0 = call.args[0] if call.args else None
+        catching = isinstance(f0, ast.Name) and f0.id in cnames
+        pol = None
+        for t, b in flow.guards_of(call, fn):
+            tt, neg = A.strip_not(t)
+            if A.is_self_attr(tt, 'catch_filter_exception'):
+                pol = (b != neg)
+        ok = pol is not None and pol == catching
+        rep.ob('C1', 'core.PrefetchDataset.__iter__::%s-path-runs-iff-catching-is-%s' % (
+            'catcher' if catching else 'plain', 'configured' if catching else 'off'), ok, call,
+            '' if ok else 'the %s worker function is used when catch_filter_exception is %s: the selected exceptions %s' % (
+                'catching' if catching else 'plain', 'off' if catching else 'set',
+                'are swallowed although nothing was selected' if catching else 'propagate although they were selected'))
+    base = ctx.repo.dataset_base()
+    pcalls = [n for n in A.walk_local(base.own('prefetch').node) if isinstance(n, ast.Call) and A.dotted(n.func) == 'PrefetchDataset']
+    for pc in pcalls:
+        b = flow.bind(pc, pf.own('__init__').node)
+        e = b.args.get('catch_filter_exception')
+        ok = A.is_name(e, 'catch_filter_exception')
+        rep.ob('CP', 'core.Dataset.prefetch::passes(catch_filter_exception)', ok, pc,
+               '' if ok else 'Dataset.prefetch does not hand catch_filter_exception to the stage: the selection is ignored')
     # consumer drops by identity
     cmps = [n for n in A.walk_local(fn) if isinstance(n, ast.Compare) and any(
         isinstance(x, ast.Name) and x.id in sentinels for x in [n.left] + n.comparators)]
